@@ -77,7 +77,8 @@ def run(F, ctx):
             cd = set()
             for c in cons:
                 cd |= P.derive({c.dst["l"]}, through_calls=True)
-            ok_cons = recv in cd
+            # ... on every path to the capture (a consolidate on one branch only leaves the other branch raw)
+            ok_cons = recv in cd and P.path(0, [ic.bb], stop={c.bb for c in cons}) is None
             # (2) positive-diff test in the capture closure
             diff_locals = set()
             for i in range(g.n):
